@@ -657,6 +657,11 @@ def build(tier, repo):
                   "distinct names give distinct rows and columns (or a refusal), never a silently merged row")
     opens = [s for s in pf.stmts_of(tofile) if isinstance(s, ast.Assign) and isinstance(s.value, ast.Call) and pf.call_name(s.value) == "open"]
     label_rx = r"\w+\[:7 - len\(str\((\w+)\)\)\] \+ '_' \+ str\(\1\)"
+    # the label expression may be written inline or through a local helper `def label(base, idx): return <that expression>`
+    helpers = [d.name for d in ast.walk(tofile) if isinstance(d, ast.FunctionDef) and d is not tofile
+               and any(isinstance(r_, ast.Return) and r_.value is not None and re.search(label_rx, ast.unparse(r_.value)) for r_ in ast.walk(d))]
+    if helpers:
+        label_rx = label_rx + "|" + "|".join(r"\b%s\(" % re.escape(h) for h in helpers)
     written = [n_ for n_ in pf.stmts_of(tofile) if isinstance(n_, ast.Assign) and re.search(label_rx, ast.unparse(n_.value)) and opens and n_.lineno > opens[0].lineno]
     tested = [n_ for n_ in pf.stmts_of(tofile) if opens and n_.lineno < opens[0].lineno and re.search(label_rx, ast.unparse(n_))]
     raises = [n_ for n_ in pf._scope_nodes(tofile) if isinstance(n_, ast.Raise) and opens and n_.lineno < opens[0].lineno
